@@ -39,6 +39,14 @@ type step struct {
 	D  *desc    `json:"d"`
 	D2 *desc    `json:"d2"`
 	V  *jsx.Val `json:"v"`
+	// op "forin": the enumerated object and the operations the loop body performs at iteration K
+	E     int     `json:"e"`
+	Sched []sched `json:"sched"`
+}
+
+type sched struct {
+	K int  `json:"k"`
+	A step `json:"a"`
 }
 
 type prop struct {
@@ -98,6 +106,7 @@ function OBSOBJ(o){
 function OBS(){ return [OBSOBJ(PO), OBSOBJ(CO), OBSOBJ(GO)]; }
 var THR = "", RET;
 function RESULT(){ var r = JSON.stringify({thr:THR, ret:ENC(RET), log:LOG, obs:OBS()}); LOG = []; return r; }
+function FRESULT(){ return JSON.stringify({visits:W, ops:OPS, obs:OBS()}); }
 `
 
 func descLit(d *desc) (string, error) {
@@ -184,6 +193,27 @@ func stepJS(s step) (string, error) {
 	return "THR=''; RET=undefined; try { " + body + " } catch (e) { THR = e.name; }", nil
 }
 
+// forInJS is the for-in statement of a "forin" step: every visited name is recorded, the body
+// counts the iterations and performs the scheduled operations (each with its own result record)
+// when the count reaches their iteration.  The loop is cut after 64 iterations (a changed
+// implementation may visit names for ever) and an exception that escapes it is recorded.
+func forInJS(s step) (string, error) {
+	var sb strings.Builder
+	sb.WriteString("var W=[], OPS=[], I=0;\ntry { for (var K in " + objNames[s.E] + ") { W.push(UNITS(K)); I++; if (I > 64) { W.push('RUNAWAY'); break; }\n")
+	for _, x := range s.Sched {
+		if x.A.Op == "forin" {
+			return "", fmt.Errorf("nested forin step")
+		}
+		js, err := stepJS(x.A)
+		if err != nil {
+			return "", err
+		}
+		sb.WriteString(fmt.Sprintf("  if (I === %d) { LOG=[]; %s OPS.push({thr:THR, ret:ENC(RET), log:LOG}); LOG=[]; }\n", x.K, js))
+	}
+	sb.WriteString("} } catch (e) { W.push('THROW ' + e.name); }\n")
+	return sb.String(), nil
+}
+
 func initJS(l *line) (string, error) {
 	p := l.Init.P
 	var sb strings.Builder
@@ -245,6 +275,9 @@ func execute(l *line) (out string, err error) {
 		return "", err
 	}
 	var sb strings.Builder
+	if l.Step.Op == "forin" {
+		sb.WriteString("NAMES = [\"p\",\"q\",\"r\",\"s\"];\n")
+	}
 	sb.WriteString(ij)
 	for _, s := range l.Path {
 		js, err := stepJS(s)
@@ -254,22 +287,73 @@ func execute(l *line) (out string, err error) {
 		sb.WriteString(js + "\n")
 	}
 	sb.WriteString("LOG=[];\n")
-	js, err := stepJS(l.Step)
-	if err != nil {
-		return "", err
+	if l.Step.Op == "forin" {
+		js, err := forInJS(l.Step)
+		if err != nil {
+			return "", err
+		}
+		sb.WriteString(js + "FRESULT();")
+	} else {
+		js, err := stepJS(l.Step)
+		if err != nil {
+			return "", err
+		}
+		sb.WriteString(js + "\nRESULT();")
 	}
-	sb.WriteString(js + "\nRESULT();")
-	v, err := vm.Run(sb.String())
-	if err != nil {
-		return "", fmt.Errorf("script error: %v", err)
+	// watchdog: a changed implementation may not terminate inside Go code; the evaluation is then
+	// abandoned (its goroutine keeps spinning) and reported like a Go panic
+	type res struct {
+		v otto.Value
+		e error
+		p any
 	}
-	return v.String(), nil
+	done := make(chan res, 1)
+	src := sb.String()
+	go func() {
+		var r res
+		defer func() {
+			if p := recover(); p != nil {
+				r.p = p
+			}
+			done <- r
+		}()
+		r.v, r.e = vm.Run(src)
+	}()
+	select {
+	case r := <-done:
+		if r.p != nil {
+			return "", fmt.Errorf("GO PANIC: %v", r.p)
+		}
+		if r.e != nil {
+			return "", fmt.Errorf("script error: %v", r.e)
+		}
+		return r.v.String(), nil
+	case <-time.After(hangTimeout):
+		atomic.AddInt64(&hangs, 1)
+		return "", fmt.Errorf("GO PANIC: (no panic, a hang) the evaluation did not return within %v", hangTimeout)
+	}
 }
 
-func same(a string, b json.RawMessage) bool {
+var hangTimeout = 60 * time.Second
+var hangs int64
+
+// accepted reports whether the observation is the expected one; the expectation of a "forin"
+// step is a set of admitted outcomes (exp.alts, computed by the specification), of which the
+// observation must be a member.
+func accepted(out string, exp json.RawMessage) bool {
 	var x, y any
-	if json.Unmarshal([]byte(a), &x) != nil || json.Unmarshal(b, &y) != nil {
+	if json.Unmarshal([]byte(out), &x) != nil || json.Unmarshal(exp, &y) != nil {
 		return false
+	}
+	if m, ok := y.(map[string]any); ok {
+		if alts, ok := m["alts"].([]any); ok {
+			for _, a := range alts {
+				if reflect.DeepEqual(x, a) {
+					return true
+				}
+			}
+			return false
+		}
 	}
 	return reflect.DeepEqual(x, y)
 }
@@ -290,6 +374,9 @@ func Check(c *core.Ctx) (map[string]any, []string, error) {
 		go func() {
 			defer wg.Done()
 			for raw := range ch {
+				if atomic.LoadInt64(&hangs) >= 4 {
+					continue // several evaluations already hang (and keep their cores busy): the verdict is a violation
+				}
 				var l line
 				if err := json.Unmarshal(raw, &l); err != nil {
 					firstErr.CompareAndSwap(nil, fmt.Errorf("bad line: %v", err))
@@ -305,7 +392,7 @@ func Check(c *core.Ctx) (map[string]any, []string, error) {
 					firstErr.CompareAndSwap(nil, err)
 					continue
 				}
-				if err == nil && same(out, l.Exp) {
+				if err == nil && accepted(out, l.Exp) {
 					n := atomic.AddInt64(&nConform, 1)
 					if n%20011 == 1 {
 						smu.Lock()
@@ -316,7 +403,7 @@ func Check(c *core.Ctx) (map[string]any, []string, error) {
 					}
 					continue
 				}
-				if err == nil && len(l.Dev) > 0 && same(out, l.Dev[0]) {
+				if err == nil && len(l.Dev) > 0 && accepted(out, l.Dev[0]) {
 					atomic.AddInt64(&nDev, 1)
 					c.Hit("deviation")
 					continue
@@ -352,8 +439,16 @@ func Check(c *core.Ctx) (map[string]any, []string, error) {
 	}
 	props := "INVARIANTS EnumOK TypeOK\nPROPERTIES NonWritableStable NonConfigurableFixed NonExtensibleNoGain FrozenIsStable InheritedAccessorGoverns ChainAccessorGoverns\n"
 	base := "INIT Init\nNEXT Next\nVIEW View\nCHECK_DEADLOCK FALSE\n"
+	nSample := 9000
+	if c.Thorough() {
+		nSample = 200000
+	}
+	seed := c.Seed % 10007
+	if seed < 0 {
+		seed = -seed
+	}
 	cfg := func(mode string, maxLen int, withProps bool) string {
-		s := fmt.Sprintf("CONSTANTS\n Mode = %q\n OpenDev = %s\n MaxLen = %d\n", mode, open, maxLen) + base
+		s := fmt.Sprintf("CONSTANTS\n Mode = %q\n OpenDev = %s\n MaxLen = %d\n Seed = %d\n NSample = %d\n", mode, open, maxLen, seed, nSample) + base
 		if withProps {
 			s += props
 		}
@@ -380,6 +475,11 @@ func Check(c *core.Ctx) (map[string]any, []string, error) {
 			d = 6
 		}
 		runErr = run(fmt.Sprintf("order-bfs-depth%d", d), cfg("order", d, true), tlc.Opts{Workers: c.Workers, Timeout: 60 * time.Minute})
+	}
+	// (1d) enumeration while mutating (12.6.4): a for-in statement whose body performs object-model
+	// operations at chosen iterations; exhaustive core, then a sample of the wide product
+	if runErr == nil {
+		runErr = run(fmt.Sprintf("forin-core+sample%d", nSample), cfg("forin", 1, true), tlc.Opts{Workers: c.Workers, Timeout: 60 * time.Minute})
 	}
 	// (2) exhaustive histories to a depth bound
 	if runErr == nil {
@@ -425,6 +525,7 @@ func Check(c *core.Ctx) (map[string]any, []string, error) {
 		"trusted: the JavaScript-side projection OBS()/ENC() in harness/internal/c07 and jsx (reflection through Object.getOwnPropertyDescriptor, getOwnPropertyNames, keys, for-in, in, isExtensible/isSealed/isFrozen) and Go float64 bit projection",
 		"table mode enumerates all 49 property states x 2 extensibility x 1299 descriptors; history mode is exhaustive to the stated depth over the HistDescs family and random beyond",
 		"for-in/keys order is required to be creation order (property statement), which ES5 12.6.4 itself leaves open",
+		"enumeration while mutating: the operations of a for-in body are triggered by the iteration count; the specification emits the SET of outcomes 12.6.4 admits (names added, re-added, hidden, shadowed or uncovered during the loop may or may not be visited) and the observation must be a member; the core family (4 plain names over child and parent, one operation) is exhaustive, the wide product (three objects, attribute kinds, 1-3 operations) is sampled",
 	}
 	return cov, assumptions, nil
 }
